@@ -100,14 +100,14 @@ package exif2
 //@   props C01
 //@   requires irOK(ir)
 //@   modifies ir.po, stream(ir.reader), ir.buffer.buf
-//@   ensures [C02] err == nil ==> pos(ir.reader) == old(pos(ir.reader)) + 2
+//@   ensures [C02] r1 == nil ==> pos(ir.reader) == old(pos(ir.reader)) + 2
 //@   ensures [C02] pos(ir.reader) >= old(pos(ir.reader))
 
 //@ func (*ifdReader).readUint32
 //@   props C01
 //@   requires irOK(ir)
 //@   modifies ir.po, stream(ir.reader), ir.buffer.buf
-//@   ensures [C02] err == nil ==> pos(ir.reader) == old(pos(ir.reader)) + 4
+//@   ensures [C02] r1 == nil ==> pos(ir.reader) == old(pos(ir.reader)) + 4
 //@   ensures [C02] pos(ir.reader) >= old(pos(ir.reader))
 
 //@ func (*ifdReader).addTagBuffer
